@@ -315,6 +315,9 @@ Definition C06_holds (op impl : sval) : holds :=
             let whole_bytes := List.concat fs in
             let all_ok := forallb (is_class "ok") parts && negb (match parts with [] => true | _ => false end) in
             if all_ok then
+              (* the implementation accepts every part: each must be a datagram the per-frame decoder of the model accepts *)
+              if negb (forallb (fun f => match Unmarshal f with Ok _ => true | _ => false end) fs)
+              then HFail [SY "malformed_frame_accepted"] else
               match ok_packets w, omap ok_packets parts with
               | Some ws, Some pss => if packets_eqb ws (List.concat pss) then HPass else HFail [SY "not_concatenation"]
               | _, _ => HFail [SY "whole_rejected_parts_accepted"]
@@ -452,7 +455,9 @@ Definition C10_holds (op impl : sval) : holds :=
             match assoc "own" impl with
             | Some own => match ok_packet own with
                           | Some v => if list_eqb (dest_spec v) (dest_spec p) then HPass else HFail [SY "dest_after_roundtrip"; tname p]
-                          | None => HTrivial
+                          | None =>
+                              (* a well-formed packet whose own encoding the decoder refuses has no list after the round trip *)
+                              if is_class "err" own || is_class "panic" own then HFail [SY "roundtrip_decode_failed"; tname p] else HTrivial
                           end
             | None => HTrivial
             end
@@ -473,6 +478,7 @@ Definition C11_holds (op impl : sval) : holds :=
             if negb (Bool.eqb (is_class "ok" v) okc) then HFail [SY "validate"] else
             if is_class "ok" mr && negb okc then HFail [SY "marshal_accepts_invalid"] else
             if okc && forallb (fun p => is_ok (marshal_packet p)) c && negb (is_class "ok" mr) then HFail [SY "marshal_rejects_valid"] else
+            if is_class "ok" mr && negb (forallb (fun p => is_ok (marshal_packet p)) c) then HFail [SY "marshal_succeeds_though_a_member_fails"] else
             if okc && negb (match first_cname c with Some t => sval_eqb cn (SL [SB t; sbool false]) | None => false end) then HFail [SY "cname"] else
             if negb (sval_eqb d (sNs (match c with [] => [] | f :: _ => dest_spec f end))) then HFail [SY "dest"] else
             if negb (size =? fold_right (fun p acc => size_packet p + acc) 0 c) then HFail [SY "size"] else
@@ -509,6 +515,13 @@ Fixpoint wire_deltas (b : bytes) (types : list N) : option (list Z * N) :=   (* 
   end.
 Local Open Scope N_scope.
 Definition C13_one (raw : bytes) (t : TWCC) : holds :=
+  (* every decoded chunk is a well-formed chunk and is the 16-bit word at its position of the packet *)
+  let words := (fix go (n : nat) (b : bytes) : list N :=
+                  match n, b with S n', b0 :: b1 :: r => (b2n b0 * 256 + b2n b1) :: go n' r | _, _ => [] end)
+                 (List.length (tw_chunks t)) (skipn 20 raw) in
+  if negb ((List.length words =? List.length (tw_chunks t))%nat
+           && forallb2 (fun c w => chunk_ok c && (chunk_word c =? w)) (tw_chunks t) words)
+  then HFail [SY "chunk_vs_wire"] else
   let types := filter is_recv (expand (tw_chunks t) (tw_count t)) in
   if negb (list_eqb (map rd_type (tw_deltas t)) types) then HFail [SY "deltas_vs_statuses"] else
   let start := 20 + 2 * nl (tw_chunks t) in
